@@ -66,6 +66,7 @@ def _lift(o):
 
 
 class RInt:
+    __class__ = property(lambda self: int)  # C-level isinstance() / `match` class patterns see the represented type
     __slots__ = ("e", "lo", "hi")
 
     def __init__(self, e, lo=-BIG, hi=BIG):
@@ -168,6 +169,14 @@ class RInt:
 
     def __divmod__(self, o): return self // o, self % o
 
+    def __and__(self, o):
+        # x & (2^k - 1) == x mod 2^k for every Python int (two's complement semantics of & on negative ints)
+        if type(o) is int and o >= 0 and (o & (o + 1)) == 0:
+            return self % (o + 1) if o else 0
+        raise Unsupported("bitwise and with a non-mask constant in R-mode")
+
+    __rand__ = __and__
+
     def __truediv__(self, o):
         # int / int true division: the correctly rounded quotient of the exact rational
         if type(o) in (int, float) and o > 0 and float(o).is_integer():
@@ -192,6 +201,7 @@ class RInt:
 
 
 class RFloat:
+    __class__ = property(lambda self: float)  # C-level isinstance() / `match` class patterns see the represented type
     __slots__ = ("e", "lo", "hi")
     _is_float_proxy = True
 
@@ -303,6 +313,7 @@ class RFloat:
 
 class RRound:
     """round-half-even(y) kept lazy."""
+    __class__ = property(lambda self: int)  # C-level isinstance() / `match` class patterns see the represented type
 
     __slots__ = ("y", "lo", "hi", "_m")
 
@@ -361,6 +372,12 @@ class RRound:
     def __rsub__(self, o): return o - self.materialise()
     def __mul__(self, o): return self.materialise() * o
     __rmul__ = __mul__
+    def __floordiv__(self, o): return self.materialise() // o
+    def __mod__(self, o): return self.materialise() % o
+    def __divmod__(self, o): return divmod(self.materialise(), o)
+    def __and__(self, o): return self.materialise() & o
+    __rand__ = __and__
+    def __neg__(self): return -self.materialise()
     def __round__(self, nd=None): return self
     def __trunc__(self): return self
 
@@ -373,6 +390,7 @@ class RRound:
 
 class Packed:
     """The bytes struct.pack would produce for an R-mode integer: kept as (format, value)."""
+    __class__ = property(lambda self: bytes)  # C-level isinstance() / `match` class patterns see the represented type
 
     _R = {"b": (-2**7, 2**7 - 1), "B": (0, 2**8 - 1), "h": (-2**15, 2**15 - 1), "H": (0, 2**16 - 1),
           "i": (-2**31, 2**31 - 1), "I": (0, 2**32 - 1), "q": (-2**63, 2**63 - 1), "Q": (0, 2**64 - 1)}
